@@ -299,6 +299,12 @@ Theorem kv2_color_text_roundtrip : forall (is_ws : N -> bool) (r g b a : N),
   parse_color is_ws (color_text r g b a) = Some (Z.of_N r, Z.of_N g, Z.of_N b, Z.of_N a).
 Proof. exact color_text_roundtrip_gen. Qed.
 
+(** BINARY: upper-case hex pairs separated by single spaces parse back ([bytes.fromhex] skips whitespace between bytes). *)
+Theorem kv2_hex_text_roundtrip : forall (is_ws : N -> bool),
+  is_ws SPC = true -> (forall c, hex_char c = true -> is_ws c = false) ->
+  forall bs, Forall (fun b => (b < 256)%N) bs -> parse_hex is_ws (hex_text bs) = Some bs.
+Proof. exact hex_text_roundtrip_gen. Qed.
+
 Theorem kv2_value_text_examples :
   (float_text dmx_float_cfg {| dneg := false; dm := 1451; de := (-1)%Z |} = [55; 50; 53; 46; 53]%N) /\
   (float_text dmx_float_cfg {| dneg := true; dm := 0; de := 0%Z |} = [45; 48]%N) /\
